@@ -149,7 +149,7 @@ impl Engine for C07 {
                 "promptness is measured in CALL hook events, not wall time",
             ],
             shrink: vec![],
-            quick: (2500, 150),
+            quick: (5000, 150),
             thorough: (60000, 1100),
         }
     }
